@@ -16,6 +16,7 @@ import (
 	"sort"
 	"strings"
 	"sync"
+	"time"
 
 	"github.com/google/pprof/internal/report"
 	"github.com/google/pprof/profile"
@@ -323,7 +324,11 @@ func textMutate(r *rand.Rand, doc []byte) []byte {
 			break
 		}
 		i := r.Intn(len(lines))
-		switch r.Intn(10) {
+		switch r.Intn(11) {
+		case 10: // blank or whitespace-only line near the top (headers and their continuation lines)
+			j := r.Intn(min(len(lines), 6) + 1)
+			ws := []string{"", " ", "\t", "\r", "  \t "}[r.Intn(5)]
+			lines = append(lines[:j], append([]string{ws}, lines[j:]...)...)
 		case 9: // memory-map entry with an odd object name
 			names := []string{"(deleted)", " (deleted)", "", "[vdso]", "/anon_hugepage (deleted)", "/anon_hugepage", "[heap]", "//anon", "a b c", "/x/y (deleted)", "(", "\x00"}
 			if mapLineRx.MatchString(lines[i]) {
@@ -571,9 +576,11 @@ func init() {
 		ID:               "C02",
 		Level:            "exploration",
 		CrashIsViolation: true,
+		CaseTimeout:      2 * time.Minute,
+		HangTries:        3,
 		Rule: "each case expands into 20-300 inputs of one family: wire (valid codec-class encodings, mutated on an independently decoded wire tree: varint games, wire-type/field-number swaps, duplicated/deleted/reordered fields, missing string table, nested damage, id 0/huge; byte mutants; every truncation for encodings <=300 B), soup (random field soups over profile.proto numbers), legacy (documents from the C14 printers and repository testdata, token-level mutants: huge/negative/non-numeric numbers, deleted/duplicated/swapped lines, CRLF, missing sentinels), cpubin (binary CPU profiles, both endiannesses and word sizes, hostile counts), wrap (gzip wrappers: valid, truncated, corrupt, double, header only, trailing garbage; concatenations). " +
-			"oracle: no panic; exactly one of error/profile; returned profile passes the independent validity checker; Write/WriteUncompressed/String/Copy/Compact and 9 report formats x 2 variants complete; accepted inputs round-trip (C01 oracle); ParseData allocation <= 1024*(len+gunzipped)+3MiB. non-trivial = every case; distinct = (family, input count, base length)",
-		Assumptions: []string{"'promptly' is restated as an allocation bound proportional to input size plus a 5 min watchdog whose firing is inconclusive", "inputs bounded to 1 MiB"},
+			"oracle: no panic; exactly one of error/profile; returned profile passes the independent validity checker; Write/WriteUncompressed/String/Copy/Compact and 9 report formats x 2 variants complete; accepted inputs round-trip (C01 oracle); ParseData allocation <= 1024*(len+gunzipped)+3MiB; a case (<=300 inputs, typically well under a second) that does not finish within 2 min in 3 of 3 fresh worker processes is a hang (violation, with goroutine dump); a single timeout is inconclusive. non-trivial = every case; distinct = (family, input count, base length)",
+		Assumptions: []string{"'promptly' is restated as an allocation bound proportional to input size plus the 3-of-3 hang rule (2 min per case of <=300 small inputs, about 1000x the typical case time)", "inputs bounded to 1 MiB"},
 		Parts: []harness.Part{
 			{Name: "wire", Quick: 400, Thor: 40000, Run: runInputs("wire")},
 			{Name: "soup", Quick: 150, Thor: 15000, Run: runInputs("soup")},
